@@ -7,7 +7,7 @@ set -u
 patch="$(readlink -f "$1")"; prop="$2"; shift 2
 d="$(mktemp -d /tmp/verif-mut-XXXXXX)"
 trap 'rm -rf "$d"' EXIT INT TERM
-cp -r /repo/csvpath "$d/csvpath"
+git -C /repo archive HEAD csvpath | tar -x -C "$d"  # (HEAD, not the working tree: seed_recheck may have a change applied there)
 find "$d" -name __pycache__ -type d -prune -exec rm -rf {} +
 if ! (cd "$d" && patch -s -p1 < "$patch"); then echo "PATCH-FAILED $patch"; exit 3; fi
 cd /verif && VERIF_REPO="$d" ./check "$prop" --no-evidence "$@"
